@@ -93,6 +93,49 @@ func ruleEUse(c *Ctx, specs []entrySpec, min int) {
 			}
 		}
 	}
+	// the other way round: an error that was just found to be nil is handed back as "the error" (the test
+	// was meant the other way: `if err == nil { return nil, err }` reports success with nothing, and goes on
+	// with the failure)
+	nRet := 0
+	for _, fn := range fns {
+		if !inScope(pkgPathOf(fn)) {
+			continue
+		}
+		for _, b := range fn.Blocks {
+			ret, ok := b.Instrs[len(b.Instrs)-1].(*ssa.Return)
+			if !ok {
+				continue
+			}
+			for _, r := range ret.Results {
+				if !isErrorType(r.Type()) {
+					continue
+				}
+				if _, isConst := r.(*ssa.Const); isConst {
+					continue
+				}
+				nRet++
+				for _, dc := range dominatingConds(b) {
+					bo, ok := dc.cond.(*ssa.BinOp)
+					if !ok || (bo.Op != token.EQL && bo.Op != token.NEQ) {
+						continue
+					}
+					var other ssa.Value
+					if bo.X == r {
+						other = bo.Y
+					} else if bo.Y == r {
+						other = bo.X
+					}
+					if k, isK := other.(*ssa.Const); !isK || k.Value != nil {
+						continue
+					}
+					if (bo.Op == token.EQL) == dc.truth { // r == nil holds here
+						c.Fail("E-use", fmt.Sprintf("%s/returns-nil-error", funcName(fn)), ret.Pos(), "the error returned here was just tested and found nil: the function reports success (with whatever else it returns at this point) where the test was meant for the failure")
+					}
+				}
+			}
+		}
+	}
+	c.Covered["E-use:error-returns"] = nRet
 	c.Covered["E-use:calls"] = n
 	c.MinInstances("E-use", n, min)
 }
